@@ -5,6 +5,7 @@ import Momo.Proof.BTreeFaultCopy
 import Momo.Proof.HTLedgerCons
 import Momo.Proof.HTLedgerStrong
 import Momo.Proof.MMLedgerSys
+import Momo.Proof.MMLedgerRefine
 /-!
 # C04 — Strongly exception-safe operations leave the container unchanged on failure
 
@@ -753,5 +754,31 @@ example : (step x6Cfg id x6Sys (.add false 1 0 99 { v := { create := true } })).
 example : ((step x6Cfg id x6Sys (.add false 1 0 99 { v := { create := true } })).1.w.evs.drop x6Sys.w.evs.length).length = 0 ∧
     (step x6Cfg id x6Sys (.add false 1 0 99 { v := { create := true } })).1.a.vbs.map (fun p => (p.1, p.2.objs, p.2.heap)) =
       x6Sys.a.vbs.map (fun p => (p.1, p.2.objs, p.2.heap)) := by decide +kernel
+
+/-- **strong guarantee at the level of CONTENTS** (`St.abs`: the abstract multimap `Key → List Value` of the books,
+`Proof/MMLedgerRefine.lean`): an `Add(key, value)`, `Add(keyIter, value)`, `Remove(keyIter, index)` or `RemoveKey(key)` that does
+not answer `done ok` - whichever fault of the schedule struck (pool block / heap storage refused, throwing creator / assignment /
+functor, refused bucket array) and also outside the precondition - leaves every key's value list as it was.  No hypothesis on the
+state. -/
+theorem C04_multimap_fault_keeps_contents (cfg : Cfg) (hf : Nat → Nat) (st : St) (k tg v i : Nat) (f : Flt) (w : W) :
+    ((addL cfg hf st k tg v f w).2.2 ≠ .done .ok → (addL cfg hf st k tg v f w).1.abs = st.abs) ∧
+    ((addAtL cfg hf st k v f w).2.2 ≠ .done .ok → (addAtL cfg hf st k v f w).1.abs = st.abs) ∧
+    ((removeValueL cfg hf st k i f w).2.2 ≠ .done .ok → (removeValueL cfg hf st k i f w).1.abs = st.abs) ∧
+    ((removeKeyL cfg hf st k f w).2.2.1 ≠ .done .ok → (removeKeyL cfg hf st k f w).1.abs = st.abs) :=
+  ⟨fun h => abs_of_vbs (addL_fault cfg hf st k tg v f w h),
+   fun h => by rw [addAtL_fault cfg hf st k v f w h],
+   fun h => by rw [removeValueL_fault cfg hf st k i f w h],
+   fun h => abs_of_vbs (removeKeyL_fault cfg hf st k f w h)⟩
+
+/-- **… and at the system level**: a failing strongly exception-safe operation (copy assignment included) leaves the abstract
+contents of both containers as they were (corollary of `C04_multimap_step_strong`). -/
+theorem C04_multimap_step_fault_keeps_contents (cfg : Cfg) (hf : Nat → Nat) (s : Sys) (op : Op) (h : SysOK cfg s)
+    (hs : op.strong = true) (hfail : (step cfg hf s op).2.failed = true) :
+    (step cfg hf s op).1.a.abs = s.a.abs ∧ (step cfg hf s op).1.b.abs = s.b.abs :=
+  step_fault_abs cfg hf s op h hs hfail
+
+/-- non-vacuity: the failing `Add` of the examples above, on contents `1 ↦ [10 … 14]` -/
+example : (step x6Cfg id x6Sys (.add false 1 0 99 { v := { create := true } })).1.a.abs 1 = [10, 11, 12, 13, 14] := by
+  decide +kernel
 
 end Momo.MML
